@@ -6,6 +6,7 @@ CONSTANTS
   EMIT = FALSE
   DEFECTS = TRUE
 INVARIANT InvLanguage
+INVARIANT InvPointTerminals
 INVARIANT InvBuildWellFormed
 INVARIANT InvReadIffWellFormed
 INVARIANT InvReadKeeps
